@@ -138,6 +138,25 @@ def fam_c11(R, n):
             attrs = ['#[logos(subpattern s0 = %s)]' % rust_str(inner)]
             out.append(dict(family='c11-escapes', src=enum(attrs, ['#[regex(%s, priority = 3)] A,' % rust_str(pat), '#[regex(%s, priority = 2)] B,' % rust_str(ref)]),
                             meta=dict(pair=(0, 1), pattern=pat, reference=ref)))
+    # the edges of a subpattern's source are part of it: whitespace of every kind, an empty alternative, a dash, a dot, an escape
+    for edge in [' ', '\t', '\n', '\r', '\u00a0', '\u2003', '  ', '|', '-', '.', '\\ ', '#', '\x0b', '\x0c']:
+        for sub in [edge + 'a', 'a' + edge, edge + 'a' + edge, edge]:
+            for shape in ['x(?&s0)y', '(?&s0)+z']:
+                if sub == '|' or (sub.strip() == '' and False):
+                    continue
+                pat = shape
+                ref = shape.replace('(?&s0)', '(?u:%s)' % sub)
+                attrs = ['#[logos(subpattern s0 = %s)]' % rust_str(sub)]
+                out.append(dict(family='c11-edges', src=enum(attrs, ['#[regex(%s, priority = 3)] A,' % rust_str(pat), '#[regex(%s, priority = 2)] B,' % rust_str(ref)]),
+                                meta=dict(pair=(0, 1), pattern=pat, reference=ref)))
+    # a nested reference whose inner source has whitespace at its edges
+    for inner in [' a', 'a ', '\ta\n']:
+        inl0 = '(?u:%s)' % inner
+        outer = '(?&s0)b(?&s0)'
+        inl1 = '(?u:%s)' % outer.replace('(?&s0)', inl0)
+        attrs = ['#[logos(subpattern s0 = %s)]' % rust_str(inner), '#[logos(subpattern s1 = %s)]' % rust_str(outer)]
+        out.append(dict(family='c11-edges', src=enum(attrs, ['#[regex("q(?&s1)", priority = 3)] A,', '#[regex(%s, priority = 2)] B,' % rust_str('q' + inl1)]),
+                        meta=dict(pair=(0, 1), pattern='q(?&s1)', reference='q' + inl1)))
     # subpatterns made of (or containing) look-around assertions
     for (sub, shape) in [('$', 'ab(?&s0)'), ('(?-u:\\b)', '[a-z]+(?&s0)'), ('(?m:$)', 'a(?&s0)\\n?'), ('x(?-u:\\B)', '(?&s0)y'), ('a|b$', 'c(?&s0)'),
                          ('(?-u:\\b{end})|-', '[a-z]+(?&s0)')]:
